@@ -469,7 +469,7 @@ def check_symbols_minute_major(repo, rep):
     """C07 at fill hooks with several symbols: 'exactly one candle per started window' for the OTHER symbols' candles needs all symbols to
     advance minute by minute; the fast simulator replays a whole chunk per symbol (the same construct as C02-R7)"""
     from props.c02 import check_symbol_interleaving
-    check_symbol_interleaving(repo, rep, rid="C07-R12")
+    check_symbol_interleaving(repo, rep, rid="C07-R12", protocol=False)
 
 
 def run(repo: Repo, rep, tier: str):
